@@ -80,8 +80,10 @@ def check(cx):
                 a = cx.analyse(f, arg_names=names)
                 rep.analysed_fns.add(inst)
                 it, st = a.it, a.state
-                loops = [lp for lp in it.loops if lp.fn == inst]
-                foreach = [e for e in it.events if e['kind'] == 'for_each' and e['fn'] == inst]
+                # the pass may live in a helper that this operator calls: every loop / for_each met while
+                # interpreting the operator (callees are inlined) belongs to it
+                loops = list(it.loops)
+                foreach = [e for e in it.events if e['kind'] == 'for_each']
                 if len(loops) == 1:
                     res, why = full_traversal(it, loops[0])
                     if res is None:
